@@ -14,6 +14,42 @@ CLAIMS = {
   technique='Lean 4 proof (report non-empty iff texts differ; escape kernel) + differential correspondence + mutation-pair search incl. colour mode',
   text='Proof: Lean theorems (GoSnaps.Props.C02, C13) characterise exactly when the stored/received comparison can conflate two values (only `---` versus `/-/-/-/` lines, known finding D10) and show the NO_COLOR report is non-empty for every pair of different texts; the exact report text of the model is compared with the real prettyDiff on every mismatching call of generated histories; a mutation-pair search (12 edit operators, colours on and off, every non-updating mode) checks one Error, no Log, no write on the implementation.',
   note='Colour-mode inline highlighting (diffmatchpatch) is a parameter; its emptiness is covered by the search and by the structural fallback introduced with the fix of D3.'),
+ 'C03': dict(
+  technique='Lean 4 proof (header injectivity for all names, registry ordinals by induction over histories, frame lemmas) + differential correspondence + slot-addressing oracle',
+  text='Proof: GoSnaps.Props.C03 proves that the header "[N - k]" is injective in (N,k) for every byte string N, that the ordinal returned to the n-th call equals the number of earlier calls of the same (file,test) key for any interleaving of other keys, that cleanup resets restart at 1 while the cumulative counter keeps growing, and that a failing call consumes its ordinal; Props.C04 supplies the frame lemmas (lookup of other entries is unchanged by append and by update). The real code is run on generated multi-test, multi-file, repeated-execution histories; after every call an independent parser of the file checks that exactly slot (N,k) changed, and every event and file byte is compared with the Lean model.',
+  note='NoShadow hypothesis = known finding D9; trusted base as C01.'),
+ 'C04': dict(
+  technique='Lean 4 proof (update = render of the updated entry list; no residue; idempotent) + differential correspondence + update/readonly search',
+  text='Proof: GoSnaps.Props.C04 proves update e.id b (render (pre ++ e :: post)) = render (pre ++ <e.id,b> :: post) for every file, position and new body (hence no residue of the old bytes, other entries byte-identical and in place), the lookups of the updated and of every other entry afterwards, and idempotence; each hypothesis is shown necessary by a checked counterexample. On the implementation: random subsets of changed entries in every updating mode, changed entries give exactly one `updated` log and one written file, unchanged entries no write (sentinel mtimes), then a read-only run passes without writing.',
+  note='HeaderUnique hypothesis = known finding D9; CR limitation; standalone whole-file replacement is C19.'),
+ 'C05': dict(
+  technique='Lean 4 proof over mode-gate functions TRANSLATED from the Go source on every run + exhaustive execution of the finite mode table (in-process and in 8 real-environment processes)',
+  text='Proof: tools/extract translates shouldUpdate, shouldCreate, the initialiser of shouldClean and the flag expressions Clean passes into Lean on every run; GoSnaps.Props.C05 proves on that translation, for every string value of UPDATE_SNAPS, that they equal the table of the property, that on CI every gate is closed, that Update(false)/Update(true) override, that a call whose gates are closed leaves the file system untouched, and (by decide on extracted facts) that no function outside the modelled writers mutates the file system. All 360 Match* cells and 96 Clean cells are executed on the real code (in-process, and again in one process per real (CI, UPDATE_SNAPS) environment so the package initialisers run for real) and on the model.',
+  note='ciinfo.IsCI and os.Getenv are inputs; the extractor/translator is trusted (a construct outside its Go subset fails the run).'),
+ 'C07': dict(
+  technique='Lean 4 proof (occurrences cover every addressed ordinal; registered entries are collected and re-emitted) + differential correspondence + addressed-slot oracle',
+  text='Proof: theorems about the loop-faithful Lean model of occurrences / examineSnaps (GoSnaps.Props.C07, C10) show that every ordinal 1..n of a test executed count times is registered and that a registered entry is never reported and is re-emitted with its body by any rewrite; the real Clean is run after generated processes (-count 1..3, all modes, sort on/off, stale entries at any position, decoys) and every slot addressed in the process is checked to replay the same value, and every result is compared with the model.',
+  note='Names Clean does not recognise (not starting with [Test) are known finding D11.'),
+ 'C09': dict(
+  technique='Lean 4 proof (no removal without update; removed = obsolete) + differential correspondence + directory-difference oracle',
+  text='Proof: GoSnaps.Props.C09 shows on the model that without the update flag Clean leaves the file system unchanged (and after the repair of D5 that a sort-only rewrite keeps stale entries), that examineFiles removes only reported `.snap` names directly inside visited directories and removes nothing unless deleting is allowed; the real code is run on generated directories with stale entries, stale files, decoy files, sub-directories and unvisited directories in every mode, the set difference of the directory is compared with the stale set computed independently, and every result with the model.',
+  note='Completeness excludes unrecognised headers (D11); -run filtering is C08.'),
+ 'C10': dict(
+  technique='Lean 4 proof (scan of a rendered file returns its entries; rewrite = render of a permutation; sort is a sorted permutation, idempotent) + differential correspondence',
+  text='Proof: GoSnaps.Props.C10 proves that scanning `render es` yields exactly the entries, that the rewrite loop re-emits the original frames (so survivors replay the same value), that sortNat is a permutation and, when the natural order is total on the ids, the unique sorted one (independent of the initial order, idempotent), and that a file needing neither pruning nor sorting is not written. The real Clean is compared with the model on generated files (exact bytes), an independent parser checks survivors, order and that a second Clean writes nothing; natural.Less is compared exactly through sorted outputs.',
+  note='slices.SortFunc is a parameter: its result is determined only when the comparator is a total order on the ids present, which the model checks per case.'),
+ 'C13': dict(
+  technique='Lean 4 proof of the diff engine (findLongestMatch validity, tiling, equal-only-identical, replay, hunk completeness, report empty iff identical, counts, provenance, residue, no ESC) + exhaustive/differential correspondence',
+  text='Proof: a loop-faithful Lean model of internal/difflib and of the NO_COLOR report; GoSnaps.Props.C13Difflib and C13 prove for all line sequences (no length bound, popularity purge included) that opcodes tile both texts, mark equal only identical ranges, replay a into b, that hunks contain every change exactly once, that the report is empty iff the texts are identical, that header counts equal the rows, that - rows come from the stored and + rows from the received text, that the residues agree and that no ESC byte is added. The model is compared with the real package exactly (quick: 13 000 sampled pairs over a 3-letter alphabet up to length 5 plus long inputs; thorough: all 132 496 pairs) and the real reports are parsed and checked.',
+  note='Colour mode: only emptiness is checked on the implementation; diffmatchpatch is a parameter.'),
+ 'C19': dict(
+  technique='Lean 4 proof (file = value after a write, silent replay for every byte string) + differential correspondence + byte-equality oracle',
+  text='Proof: GoSnaps.Props.C19 proves on the model that whenever a standalone call writes, the file holds exactly the snapshot text, that other files are untouched, and that a file holding the value replays with no event and no write for every byte sequence (no CR or shadow hypothesis); the real code is run with arbitrary bytes (CR, terminator-like, header-like, 300 KB lines), 1-12 calls per test, repeated executions and update mode, file bytes are compared with the value and with the model.',
+  note='`%` in the test name or path is known finding D12 (the path is used as a format string).'),
+ 'C20': dict(
+  technique='Lean 4 proof (exhaustive case analysis: exactly one outcome and one counter per call) + concurrency counters theorem + differential correspondence + summary parser',
+  text='Proof: GoSnaps.Props.C20 proves by case analysis over the step functions shared by all five entry points that every covered call yields exactly one of passed/added/updated/failed, signalled as nothing, one added log, one updated log or one error, and moves exactly the matching counter by one; Props.C06 (counters_sum) lifts the counter identity to every schedule of parallel tests. On the implementation the outcomes are tallied from the mock test log and compared with the counters and with the numbers parsed from the printed summary, for every Clean mode.',
+  note='MatchSnapshot(t) without values logs a warning and has no outcome (stated boundary).'),
 }
 
 def main():
